@@ -1,5 +1,5 @@
 (* Properties/C10.v — option spelling. *)
-From SPV Require Import Base.Str Model.OptStr Model.SpellSpec Proofs.OptStrProofs.
+From SPV Require Import Base.Str Model.MiniPy Model.OptStr Model.SpellSpec Gen.FactsOptStrSrc Proofs.OptStrProofs Proofs.MiniPyOptStr.
 
 (* For a field whose name clashes with nothing (empty prefix), under every one of the 3 x 3 x 2 configurations,
    for all names, destination paths and alias lists: the accepted spellings are exactly the documented ones. *)
@@ -17,6 +17,27 @@ Print Assumptions C10_no_duplicate_spelling.
 Theorem C10_positional : forall c f, positional f = true -> option_strings c f = [dest f].
 Proof. exact positional_options. Qed.
 Print Assumptions C10_positional.
+
+(* The tie to the code for this method is a THEOREM, not a sample: `option_strings_src` is the ast of
+   FieldWrapper.option_strings dumped by harness/translate/OptStrSrc.py on every run (a syntax-to-syntax translation into the
+   MiniPy fragment of Model/MiniPy.v); run by the MiniPy interpreter on any configuration and any field wrapper (any name,
+   prefix, destination, alias list) it returns exactly the functional model the theorems above are about. *)
+Theorem C10_source_is_model : forall c f,
+  positional f = false -> run_src c f = Ok (VL (map VS (option_strings c f))).
+Proof. exact src_is_model. Qed.
+Print Assumptions C10_source_is_model.
+
+Theorem C10_source_is_model_positional : forall c f,
+  positional f = true -> run_src c f = Ok (VL (map VS (option_strings c f))).
+Proof. exact src_is_model_positional. Qed.
+Print Assumptions C10_source_is_model_positional.
+
+(* hence: what the regenerated source returns for an unclashed field is exactly the documented set of spellings *)
+Theorem C10_source_options_are_documented : forall c f s,
+  wf_names f -> pfx f = "" -> positional f = false ->
+  exists l, run_src c f = Ok (VL (map VS l)) /\ (In s l <-> In s (doc_options c (path f ++ [name f]) (name f) (aliases f))).
+Proof. exact src_options_documented. Qed.
+Print Assumptions C10_source_options_are_documented.
 
 Example C10_nonvacuous :
   let f := mkfw ["cfg"; "s_b"] "a_b" "" ["-q"; "al_1"] false in
